@@ -30,6 +30,17 @@ MACHINES = {
     "C15": "sim.c15",
     "C16": "sim.c16",
     "C14": "sim.c14",
+    "C13T": "sim.c13t",
+    "C16T": "sim.c16t",
+    "C09T": "sim.c09t",
+}
+# a property's check = one or more machines ("parts")
+PARTS = {
+    "C08": ["C08"],
+    "C13": ["C13", "C13T"],
+    "C15": ["C15"],
+    "C16": ["C16", "C16T"],
+    "C14": ["C14"],
 }
 
 # runs per tier (override with VERIF_RUNS) and wall-clock safety caps
@@ -39,6 +50,9 @@ TIERS = {
     "C15": {"quick": (2000, 240), "thorough": (100000, 3000)},
     "C16": {"quick": (12000, 240), "thorough": (600000, 3000)},
     "C14": {"quick": (2500, 300), "thorough": (100000, 3600)},
+    "C13T": {"quick": (1500, 200), "thorough": (60000, 2400)},
+    "C16T": {"quick": (2000, 200), "thorough": (100000, 2400)},
+    "C09T": {"quick": (200, 200), "thorough": (12000, 2400)},
 }
 
 
@@ -157,10 +171,11 @@ def replay_file(path):
         from sim import c09
 
         return c09.replay(doc, path)
-    if hasattr(machine(prop), "prepare"):
-        common.PRELOAD.append((MACHINES[prop], "prepare"))
+    mkey = doc.get("machine", prop)
+    if hasattr(machine(mkey), "prepare"):
+        common.PRELOAD.append((MACHINES[mkey], "prepare"))
     common.start_zygotes()
-    out = run_case(prop, doc["case"])
+    out = run_case(mkey, doc["case"])
     viol = out["violation"]
     if viol is None:
         print(f"replay: no violation reproduced for {path}")
@@ -264,20 +279,59 @@ def _worker(args):
 
 
 def check(prop, tier):
+    """Run every part (machine) of a property's check; merge the evidence."""
     t0 = time.time()
     common.import_statham()
-    mach = machine(prop)
-    if hasattr(mach, "prepare"):
-        common.PRELOAD.append((MACHINES[prop], "prepare"))
+    seed = base_seed()
+    exit_code = 0
+    coverages = {}
+    assumptions = []
+    reported = 0
+    for mkey in PARTS[prop]:
+        code, coverage, n_reported = check_part(prop, mkey, tier)
+        if code == 2:
+            return 2
+        exit_code = max(exit_code, code)
+        coverages[mkey] = coverage
+        reported += n_reported
+        for text in getattr(machine(mkey), "ASSUMPTIONS", []):
+            if text not in assumptions:
+                assumptions.append(text)
+    main = coverages[PARTS[prop][0]]
+    if len(coverages) == 1:
+        merged = main
+    else:
+        merged = {
+            "evaluations": sum(c["evaluations"] for c in coverages.values()),
+            "distinct_nontrivial": sum(c["distinct_nontrivial"] for c in coverages.values()),
+            "rule": " || ".join(f"[{k}] {c['rule']}" for k, c in coverages.items()),
+            "samples": [smp for c in coverages.values() for smp in c["samples"][:2]],
+            "runs_per_hour": int(
+                sum(c["evaluations"] for c in coverages.values()) / max(1e-9, time.time() - t0) * 3600
+            ),
+            "logical_steps": sum(c["logical_steps"] for c in coverages.values()),
+            "parts": coverages,
+        }
+    write_evidence(prop, tier, seed, merged, time.time() - t0, reported, assumptions)
+    return exit_code
+
+
+def check_part(prop, mkey, tier):
+    """One machine of a property's check.  -> (exit code, coverage, #reported)"""
+    t0 = time.time()
+    mach = machine(mkey)
+    common.PRELOAD[:] = (
+        [(MACHINES[mkey], "prepare")] if hasattr(mach, "prepare") else []
+    )
     common.start_zygotes()  # before this process uses the library at all
     seed = base_seed()
-    n_runs, cap_s = TIERS[prop][tier]
+    n_runs, cap_s = TIERS[mkey][tier]
     n_runs = int(os.environ.get("VERIF_RUNS", n_runs))
     cap_s = int(os.environ.get("VERIF_CAP_S", cap_s))
     seam_ok = common.run_isolated("sim.common", "seam_probe")
     sample_every = max(1, n_runs // 3)
     results, errors, skipped = run_pool(
-        _worker((prop, seed, sample_every)),
+        _worker((mkey, seed, sample_every)),
         range(n_runs),
         deadline=t0 + cap_s,
         hang_s=int(os.environ.get("VERIF_HANG_S", "180")),
@@ -286,10 +340,10 @@ def check(prop, tier):
         for index, text in errors[:3]:
             print(f"HARNESS-ERROR: {prop} run {index}:\n{text}", file=sys.stderr)
         print(f"HARNESS-ERROR: {len(errors)} run(s) failed inside the harness")
-        return 2
+        return 2, None, 0
     if not results:
         print("HARNESS-ERROR: no runs executed")
-        return 2
+        return 2, None, 0
     # ---- aggregate ------------------------------------------------------
     stats = {}
     nontrivial_digests = set()
@@ -313,14 +367,14 @@ def check(prop, tier):
     if os.environ.get("VERIF_NO_DET") != "1":
         picks = sorted(results)[:: max(1, len(results) // 8)][:8]
         det = determinism_sample(
-            prop, seed, picks, {i: results[i]["digest"] for i in picks}
+            mkey, seed, picks, {i: results[i]["digest"] for i in picks}
         )
         if det["mismatched"]:
             print(
                 f"HARNESS-ERROR: nondeterministic runs {det['mismatched']} "
                 f"(digest differs in a fresh interpreter)"
             )
-            return 2
+            return 2, None, 0
     # ---- violations ------------------------------------------------------
     findings = load_known_findings()
     exit_code = 0
@@ -334,19 +388,20 @@ def check(prop, tier):
     for sig_key, group in list(by_sig.items())[:4]:
         index, res = group[0]
         invariant = res["violation"]["invariant"]
-        small = minimise(prop, res["case"], invariant, budget)
-        out = run_case(prop, small)
+        small = minimise(mkey, res["case"], invariant, budget)
+        out = run_case(mkey, small)
         if out["violation"] is None or out["violation"]["invariant"] != invariant:
-            small, out = res["case"], run_case(prop, res["case"])
+            small, out = res["case"], run_case(mkey, res["case"])
         if out["violation"] is None:
             print(
                 f"HARNESS-ERROR: {prop} run {index} violated {invariant} in its worker but not when "
                 "re-executed in the parent process: outcome depends on process history"
             )
-            return 2
+            return 2, None, 0
         sig = mach.signature(small, out["violation"])
         doc = {
             "property": prop,
+            "machine": mkey,
             "engine": getattr(mach, "ENGINE", "H"),
             "seed": seed,
             "run": index,
@@ -356,11 +411,11 @@ def check(prop, tier):
             "case": small,
             "failing_runs": [i for i, _ in group][:50],
         }
-        path = write_replay(prop, f"{seed}-{index}", doc)
+        path = write_replay(prop, f"{mkey}-{seed}-{index}", doc)
         ok, text = confirm_replay(path)
         if not ok:
             print(f"HARNESS-ERROR: non-replayable violation {path}\n{text}")
-            return 2
+            return 2, None, 0
         entry = match_known(prop, sig, findings)
         if entry is not None:
             print(f"KNOWN-FINDING: property={prop} {entry['what']} (replay={path})")
@@ -397,23 +452,14 @@ def check(prop, tier):
         "known_findings_hit": known_hit,
         "replays": reported,
     }
-    write_evidence(
-        prop,
-        tier,
-        seed,
-        coverage,
-        wall,
-        len(reported),
-        getattr(mach, "ASSUMPTIONS", []),
-    )
     print(
-        f"{prop} {tier}: runs={len(results)} nontrivial_distinct="
+        f"{mkey} {tier}: runs={len(results)} nontrivial_distinct="
         f"{len(nontrivial_digests)} failing={len(failing)} wall={wall:.1f}s "
         f"({coverage['runs_per_hour']} runs/h)"
     )
     if skipped and exit_code == 0:
         print(f"note: {len(skipped)} runs not started (wall-clock cap)")
-    return exit_code
+    return exit_code, coverage, len(reported)
 
 
 def digest_cmd(prop, indices):
